@@ -163,9 +163,27 @@ def ev_mp(case, rec):
     rec.sample(case)
 
 
+# --- two threads solving DIFFERENT direct problems on DIFFERENT ellipsoids at the same time ----------
+from gpmc import threads as _thr
+import numpy as _tnp
+import geodepy.constants as _tgc
+import geodepy.convert as _tgv
+import geodepy.geodesy as _tgg
+import geodepy.angles as _tga
+T_CALLS = {
+    'grs80': lambda: (lambda: _tgg.vincdir(-37.95103342, 144.42486789, 306.86815920, 54972.271)),
+    'intl_long': lambda: (lambda: _tgg.vincdir(10.0, -20.0, 45.0, 1.5e7, _tgc.intl24)),
+    'ans_polar': lambda: (lambda: _tgg.vincdir(89.0, 10.0, 0.0, 3.0e5, _tgc.ans)),
+    'obj': lambda: (lambda: _tgg.vincdir(_tga.DMSAngle(-0, 30, 0), _tga.DMSAngle(100, 0, 0), _tga.DMSAngle(90, 0, 0), 1.0e6)),
+}
+_tg, _te = _thr.make(T_CALLS, ['geodepy/geodesy.py'], 'geodesy:vincdir:threads', quick=['grs80', 'intl_long', 'ans_polar'],
+                     triple=('grs80', 'intl_long', 'obj'))
+
+
 SUBCHECKS = [
     Sub('direct', gen, ev, chunk=4, floor=1000, envs=6),
     Sub('mp', gen_mp, ev_mp, chunk=2, floor=100),
+    Sub('threads', _tg, _te, chunk=1, floor=3, poison=False),
 ]
 
 
